@@ -136,6 +136,30 @@ def run(repo, rep, tier):
                   construct="token-filename-forwarded", where=L.where(tf))
     filename_chain(repo, rep, "R11.4")
     L.whitelist_rule(repo, rep, "R11.5")
+    language_error_guards(repo, rep)
+    # the file name is written into the generated module as a literal: it
+    # is handed to the compiler as text (the repr of a path object is no
+    # literal: the module would not load)
+    cp = repo.func("chameleon.template.BaseTemplate._compile")
+    cc_ = [c for c in ast.walk(cp.node) if isinstance(c, ast.Call)
+           and src(c.func) == "Compiler"]
+    rep.check(bool(cc_) and all(
+        len(c.args) > 2 and src(c.args[2]) == "str(self.filename)"
+        or any(k.arg == "filename" and src(k.value) == "str(self.filename)"
+               for k in c.keywords) for c in cc_), "R11.5", cp.qualname,
+        "the compiler gets the file name as a string",
+        construct="filename-as-text", where=L.where(cp))
+    # the expression types of the file-based class are its own table: the
+    # 'load:' type added there is unknown to string templates (they have no
+    # loader; the type is rejected when such a template is compiled)
+    pf = repo.cls("chameleon.zpt.template.PageTemplateFile")
+    et = pf.attrs.get("expression_types")
+    rep.check(et is not None and isinstance(et, ast.Call) and (
+        isinstance(et.func, ast.Attribute) and et.func.attr == "copy" or
+        src(et.func) == "dict"), "R11.5", pf.qualname, "the file-based "
+        "class extends a copy of the expression-type table",
+        construct="expression-types-copied",
+        detail=src(et) if et is not None else "missing")
     # constructing a template computes its cache key: that must not fail
     # for any environment (C15 owns the key)
     from . import c15 as _c15
@@ -145,8 +169,45 @@ def run(repo, rep, tier):
     # appears once an entity is decoded (C09 owns the element details)
     from . import c09 as _c09
     L.borrow(repo, rep, "R11.5", "C09", _c09.element_details,
-             ("multipart-complete",))
+             ("multipart-complete", "blank-clause-empty"), minimum=2)
     L.state_rule(repo, rep)
+
+
+def language_error_guards(repo, rep, rule="R11.5"):
+    """an illegal combination of statements is rejected when -- and only
+    when -- the statements its message names are both there: the condition
+    in front of the raise reads the (namespace, name) keys the message
+    spells out"""
+    import re as _re
+    ns_of = {"tal": "TAL", "metal": "METAL", "i18n": "I18N", "meta": "META"}
+    n = 0
+    for q, f in sorted(repo.funcs.items()):
+        if not q.startswith("chameleon.zpt.program."):
+            continue
+        for r in ast.walk(f.node):
+            if not (isinstance(r, ast.Raise) and isinstance(r.exc, ast.Call)
+                    and src(r.exc.func) == "LanguageError" and r.exc.args
+                    and isinstance(r.exc.args[0], ast.Constant)):
+                continue
+            toks = _re.findall(r"\b(tal|metal|i18n|meta):([a-z-]+)",
+                               str(r.exc.args[0].value))
+            gs = [src(L.inline_locals(f.node, t_))
+                  for t_, v_ in L.guards_of(r, f.node)
+                  if isinstance(t_, ast.expr)]
+            if len(toks) < 2 or not any("ns" in g for g in gs):
+                continue
+            n += 1
+            text = " ".join(gs).replace(" ", "")
+            miss = [t for t in toks if "(%s,'%s')" % (ns_of[t[0]], t[1])
+                    not in text]
+            rep.check(not miss, rule, f.qualname, "the combination %s is "
+                      "rejected by a test of exactly these statements" %
+                      " + ".join("%s:%s" % t for t in toks),
+                      construct="language-error-guard:%s" % "+".join(
+                          t[1] for t in toks), where=L.where(f, r.lineno),
+                      detail="not tested: %s" % miss)
+    if n < 2:
+        raise AnalysisError("illegal-combination checks: %d found" % n)
 
 
 def filename_chain(repo, rep, rule="R11.4"):
